@@ -5,6 +5,10 @@
            fewer than 2^31 calls are ever placed (the same guard as C02; streamsCnt
            is an int32, and the swap clause compares stream counts across the swap
            event).  It follows from: fewer than 2^31 operations.
+           The trigger clause of the monitor carries its own guard (the clock is an
+           int64 count of nanoseconds: 0 <= lastResp, now <= 2^63 - 1); no window
+           guard: the model's saturating int64 window decides "more than
+           ms * 2^refreshCnt has elapsed" exactly (C07Refresh.window_model_elapsed).
    Part 2: state-level theorems about the refresh protocol. *)
 From GV Require Import Base.AListFacts Pool.Model Pool.Observe Pool.Monitors
                        Pool.Lemmas Pool.Inv Pool.Inv2 Pool.Frames Pool.Sim Pool.SimW Pool.InvC20 Pool.SimHome
@@ -16,7 +20,7 @@ Open Scope Z_scope.
 (* harness-legal histories: [LegalRun.legal], the model answers no operation with
    RBadOp (the guard of SimHome.monitor_legal) *)
 
-Definition Inv07 (s : bal) : Prop := Inv s /\ Quiescent s /\ InvU s.
+Definition Inv07 (s : bal) : Prop := Inv s /\ Quiescent s /\ InvU s /\ clock_ok s.
 
 Definition guard07 (raw : option config) (s : bal) (o : op) (order : list nat) : Prop :=
   legal_step raw (fun _ _ _ => True) s o order /\ state_guard raw picks_ok s o order.
@@ -33,11 +37,11 @@ Proof.
 Qed.
 
 Lemma c07_check raw s ms o order s' outs rt ub :
-  Inv s -> InvU s -> Sim s ms -> rt <> RBadOp -> picks_ok s' ->
+  Inv s -> InvU s -> clock_ok s -> Sim s ms -> rt <> RBadOp -> picks_ok s' ->
   full_step raw s o order = (s', outs, rt, ub) ->
   event_ok P07 raw ms (observe s) (mkEvent o outs rt ub (Some (observe s'))) = true.
 Proof.
-  intros HI HU HS Hrt Hok E.
+  intros HI HU HC HS Hrt Hok E.
   change (c07_event (raw_in_force raw ms o) ms (observe s) (mkEvent o outs rt ub (Some (observe s'))) (observe s') = true).
   pose proof (c07_undet_holds _ _ _ _ _ _ _ _ _ HI HU (proj1 (proj2 HS)) E) as H1.
   assert (Hother : match o with OpDone _ _ _ | OpConnState _ Ready => False | _ => True end ->
@@ -62,10 +66,11 @@ Lemma C07_step raw s ms o order s' outs rt ub :
   Inv07 s' /\ Sim s' (track raw ms (observe s) ev (observe s')) /\
   event_ok P07 raw ms (observe s) ev = true.
 Proof.
-  intros (HI & HQ & HU) HS ([Hl _] & [_ Hok]) E. cbv zeta.
+  intros (HI & HQ & HU & HC) HS ([Hl _] & [_ Hok]) E. cbv zeta.
   rewrite E in Hl, Hok.
   destruct (Sim_step raw s ms o order s' outs rt ub HI HS Hl E) as [HI' [HQ' HS']].
-  split; [split; [exact HI'|split; [exact HQ'|exact (full_step_InvU _ _ _ _ _ _ _ _ HI HU E)]]|].
+  split; [split; [exact HI'|split; [exact HQ'|split; [exact (full_step_InvU _ _ _ _ _ _ _ _ HI HU E)|
+                                                      exact (full_step_clock_ok _ _ _ _ _ _ _ _ HI HC E)]]]|].
   split; [exact HS'|]. eapply c07_check; eauto.
 Qed.
 
@@ -75,7 +80,7 @@ Theorem C07_guarded raw ops :
 Proof.
   apply (monitor_run P07 raw Inv07 Sim (guard07 raw)).
   - intros. eapply C07_step; eauto.
-  - split; [exact Inv_init|split; [exact Quiescent_init|exact InvU_init]].
+  - split; [exact Inv_init|split; [exact Quiescent_init|split; [exact InvU_init|exact clock_ok_init]]].
   - exact Sim_init.
 Qed.
 
@@ -136,33 +141,50 @@ Qed.
 
 (* ================================================================ Part 2: the refresh protocol, state level *)
 
-(* --- the trigger rule: with the window in range, a creation attempt happens iff
-       enough calls timed out, the last response is older than the window, and no
-       refresh is in flight --- *)
-Theorem refresh_iff s p oc r c :
+(* --- the trigger rule: a creation attempt happens iff enough calls timed out, the
+       last response is older than the window  unresponsive_detection_ms * 2^refreshCnt,
+       and no refresh is in flight.  For every threshold and every refresh count: the
+       only hypotheses about numbers say that the clock is an int64 count of
+       nanoseconds (0 <= lastResp, now <= MaxInt64) and refreshCnt is not negative (it
+       is a uint32).  [window_ns] is the unbounded intended window. --- *)
+Lemma du_result_newsc_iff s p oc r c :
   b_cfg s = Some c -> InvU s -> b_undet s = true ->
-  get_slot s (pk_slot p) = Some r ->
-  client_dl (b_now s) oc (pk_deadline p) = true ->   (* a client-side deadline that has passed *)
-  sl_last r <= pk_started p ->                        (* the call started after the last response *)
-  window_in_range c (sl_rcnt r) = true ->
-  (has_newsc (snd (detectUnresponsive s p oc)) = true <->
+  client_dl (b_now s) oc (pk_deadline p) = true -> sl_last r <= pk_started p ->
+  0 <= sl_last r -> 0 <= sl_rcnt r -> b_now s <= MaxInt64 ->
+  (match snd (du_result s p oc r) with KNone => false | _ => true end = true <->
    c_ucalls c <= (sl_de r + 1) mod W32 /\ sl_last r < b_now s - window_ns c (sl_rcnt r) /\
    sl_refreshing r = false).
 Proof.
-  intros Hc HU Hu Hs Hcd Hst Hw.
-  destruct (detectUnresponsive s p oc) as [s2 o] eqn:E. cbn [snd].
-  destruct (detectUnresponsive_spec _ _ _ _ _ _ Hs E) as [_ [-> _]]. rewrite has_newsc_du.
+  intros Hc HU Hu Hcd Hst Hl0 Hk0 Hnow.
   destruct (InvU_pos s HU Hu) as [_ Hums].
   assert (Hc1 : cfg_ucalls s = c_ucalls c) by (unfold cfg_ucalls; rewrite Hc; reflexivity).
   assert (Hc2 : cfg_ums s = c_ums c) by (unfold cfg_ums; rewrite Hc; reflexivity).
   unfold du_result. rewrite Hu, Hcd. cbn [negb].
   assert (Hlt : pk_started p <? sl_last r = false) by (apply Z.ltb_ge; exact Hst). rewrite Hlt. cbv zeta.
   rewrite (du_trigger_eq s r c Hc1 Hc2) by (auto; lia).
+  rewrite window_elapsed_spec by (auto; try lia; rewrite <- MaxInt64_Int64Max; exact Hnow).
   destruct (Z.leb_spec (c_ucalls c) ((sl_de r + 1) mod W32)) as [H1|H1];
     destruct (Z.ltb_spec (sl_last r) (b_now s - window_ns c (sl_rcnt r))) as [H2|H2];
     destruct (sl_refreshing r); try destruct (cannot_create s); cbn [andb snd];
     split; intros H; try discriminate; try (repeat split; (assumption || reflexivity)); try (exfalso; lia);
     try (destruct H as (?&?&?); discriminate).
+Qed.
+
+Theorem refresh_iff s p oc r c :
+  b_cfg s = Some c -> InvU s -> b_undet s = true ->
+  get_slot s (pk_slot p) = Some r ->
+  client_dl (b_now s) oc (pk_deadline p) = true ->   (* a client-side deadline that has passed *)
+  sl_last r <= pk_started p ->                        (* the call started after the last response *)
+  0 <= sl_last r -> 0 <= sl_rcnt r ->                 (* lastResp is a clock value, refreshCnt a uint32 *)
+  b_now s <= MaxInt64 ->                              (* the clock is an int64 count of nanoseconds *)
+  (has_newsc (snd (detectUnresponsive s p oc)) = true <->
+   c_ucalls c <= (sl_de r + 1) mod W32 /\ sl_last r < b_now s - window_ns c (sl_rcnt r) /\
+   sl_refreshing r = false).
+Proof.
+  intros Hc HU Hu Hs Hcd Hst Hl0 Hk0 Hnow.
+  destruct (detectUnresponsive s p oc) as [s2 o] eqn:E. cbn [snd].
+  destruct (detectUnresponsive_spec _ _ _ _ _ _ Hs E) as [_ [-> _]]. rewrite has_newsc_du.
+  apply du_result_newsc_iff; assumption.
 Qed.
 
 (* while the counter does not wrap this is the rule  ucalls <= deCalls + 1 *)
@@ -171,36 +193,115 @@ Corollary refresh_iff_no_wrap s p oc r c :
   get_slot s (pk_slot p) = Some r ->
   client_dl (b_now s) oc (pk_deadline p) = true -> sl_last r <= pk_started p ->
   0 <= sl_de r -> sl_de r + 1 < W32 ->
-  window_in_range c (sl_rcnt r) = true ->
+  0 <= sl_last r -> 0 <= sl_rcnt r -> b_now s <= MaxInt64 ->
   (has_newsc (snd (detectUnresponsive s p oc)) = true <->
    c_ucalls c <= sl_de r + 1 /\ sl_last r < b_now s - window_ns c (sl_rcnt r) /\ sl_refreshing r = false).
 Proof.
-  intros Hc HU Hu Hs Hcd Hst Hd0 Hd1 Hw.
-  rewrite (refresh_iff s p oc r c Hc HU Hu Hs Hcd Hst Hw), Z.mod_small by (split; [lia|exact Hd1]). reflexivity.
+  intros Hc HU Hu Hs Hcd Hst Hd0 Hd1 Hl0 Hk0 Hnow.
+  rewrite (refresh_iff s p oc r c Hc HU Hu Hs Hcd Hst Hl0 Hk0 Hnow), Z.mod_small by (split; [lia|exact Hd1]).
+  reflexivity.
 Qed.
 
-(* --- known finding R2: outside the range the model's uint32 window differs from
-       the intended one.  50 min threshold, 11 refreshes: 2^11 * 3000000 ms wraps --- *)
-Example window_wrap_refuted :
+(* 0 <= lastResp and 0 <= refreshCnt are facts about every state of every run *)
+Theorem reachable_clock_ok raw ops : Forall clock_ok (run_states raw init_bal ops).
+Proof. apply run_states_clock_ok; [exact Inv_init|exact clock_ok_init]. Qed.
+
+Corollary refresh_iff_clock_ok s p oc r c :
+  b_cfg s = Some c -> InvU s -> b_undet s = true -> clock_ok s ->
+  get_slot s (pk_slot p) = Some r ->
+  client_dl (b_now s) oc (pk_deadline p) = true -> sl_last r <= pk_started p ->
+  b_now s <= MaxInt64 ->
+  (has_newsc (snd (detectUnresponsive s p oc)) = true <->
+   c_ucalls c <= (sl_de r + 1) mod W32 /\ sl_last r < b_now s - window_ns c (sl_rcnt r) /\
+   sl_refreshing r = false).
+Proof.
+  intros Hc HU Hu HC Hs Hcd Hst Hnow. destruct (clock_ok_slot s _ r HC Hs) as [[Hl0 _] Hk0].
+  apply refresh_iff; assumption.
+Qed.
+
+(* ... and on histories: in the state reached by any sequence of operations, a Done of
+   a call that hit its client-side deadline and started after the last response makes a
+   creation attempt when and only when the rule says so.  The one hypothesis on the
+   history: the clock of that state fits an int64 (about 292 years of nanoseconds). *)
+Lemma run_state_inv raw : forall ops s,
+  Inv s -> InvU s -> clock_ok s ->
+  Inv (run_state raw s ops) /\ InvU (run_state raw s ops) /\ clock_ok (run_state raw s ops).
+Proof.
+  induction ops as [|[o order] r IH]; intros s HI HU HC; cbn [run_state]; [auto|].
+  destruct (full_step raw s o order) as [[[s' outs] rt] ub] eqn:E.
+  destruct (full_step_Inv _ _ _ _ _ _ _ _ HI E) as [HI' _].
+  apply IH; [exact HI'|exact (full_step_InvU _ _ _ _ _ _ _ _ HI HU E)|exact (full_step_clock_ok _ _ _ _ _ _ _ _ HI HC E)].
+Qed.
+
+Theorem refresh_iff_run raw ops j oc rk order s' outs rt ub p r c :
+  let s := run_state raw init_bal ops in
+  full_step raw s (OpDone j oc rk) order = (s', outs, rt, ub) -> rt <> RBadOp ->
+  nth_error (b_picks s) j = Some p -> get_slot s (pk_slot p) = Some r ->
+  b_cfg s = Some c -> b_undet s = true ->
+  client_dl (b_now s) oc (pk_deadline p) = true -> sl_last r <= pk_started p ->
+  b_now s <= MaxInt64 ->
+  (has_newsc outs = true <->
+   c_ucalls c <= (sl_de r + 1) mod W32 /\ sl_last r < b_now s - window_ns c (sl_rcnt r) /\
+   sl_refreshing r = false).
+Proof.
+  intros s E Hrt Hj Hr Hc Hu Hcd Hst Hnow.
+  destruct (run_state_inv raw ops init_bal Inv_init InvU_init clock_ok_init) as (HI & HU & HC). fold s in HI, HU, HC.
+  rewrite full_step_eq in E. cbn [step] in E.
+  destruct (Done s j oc rk) as [[s1 o1] r1] eqn:Ed.
+  destruct (resolve_blocked s1) as [s2 ub2] eqn:Er. inv E.
+  destruct (Done_spec _ _ _ _ _ _ _ HI Ed Hrt) as (p' & r' & Hj' & _ & Hr' & _ & -> & _).
+  assert (p' = p) by congruence. subst p'. assert (r' = r) by congruence. subst r'.
+  rewrite has_newsc_du.
+  destruct (clock_ok_slot s _ r HC Hr) as [[Hl0 _] Hk0].
+  apply (du_result_newsc_iff (done_s1 s j p) p oc (sl_set_streams r (wrap32s (sl_streams r - 1))) c);
+    try assumption.
+Qed.
+
+(* --- finding R2, fixed.  The witnesses of the former examples window_wrap_refuted /
+       window_wrap_early_refresh (50 min threshold, 11 refreshes: 2^11 * 3000000 ms does
+       not fit a uint32; the old uint32 product gave 1849032704000000 ns instead of
+       6144000000000000 ns): the window is now the intended one --- *)
+Example window_no_wrap_fixed :
   let c := mkConfig 1 4 100 false 3000000 1 false [] in
   let s := set_cfg init_bal (Some c) in
   let r := mkSlot 0 0 0 0 0 false 11 in
   window_in_range c (sl_rcnt r) = false /\
   2 ^ sl_rcnt r * c_ums c >= W32 /\
-  unresponsiveWindow s r = 1849032704000000 /\ window_ns c (sl_rcnt r) = 6144000000000000 /\
-  unresponsiveWindow s r <> window_ns c (sl_rcnt r).
+  unresponsiveWindow s r = 6144000000000000 /\ window_ns c (sl_rcnt r) = 6144000000000000 /\
+  unresponsiveWindow s r = window_ns c (sl_rcnt r).
 Proof. vm_compute. repeat split; try reflexivity; discriminate. Qed.
 
-(* ... and it matters: a refresh fires although the intended window has not elapsed *)
-Example window_wrap_early_refresh :
+(* ... and the refresh no longer fires before the intended window has elapsed (same
+   state as window_wrap_early_refresh: the clock at 2000000 s, the window 6144000 s);
+   it fires once the window has elapsed *)
+Example window_no_early_refresh_fixed :
   let c := mkConfig 1 4 100 false 3000000 1 false [] in
-  let s := mkBal (Some c) 1 0 0 0 Idle [] [] [(0%N, Ready)] [(0%N, 0%nat)] [mkSlot 0 0 1 0 0 false 11]
+  let st now := mkBal (Some c) 1 0 0 0 Idle [] [] [(0%N, Ready)] [(0%N, 0%nat)] [mkSlot 0 0 1 0 0 false 11]
                  0 [] true (PSnap [0%nat]) [PSnap [0%nat]]
-                 [mkPick 0 5 (Some 6) false BOUND 0 false true PPlaced] 2000000000000000 1 false false [] in
+                 [mkPick 0 5 (Some 6) false BOUND 0 false true PPlaced] now 1 false false [] in
   let p := mkPick 0 5 (Some 6) false BOUND 0 false true PPlaced in
-  b_now s - window_ns c 11 < 0 /\                                    (* intended window not elapsed *)
-  snd (detectUnresponsive s p DDeadlineClient) = [ONewSC 1 1; OConnect 1].
-Proof. vm_compute. split; reflexivity. Qed.
+  b_now (st 2000000000000000) - window_ns c 11 < 0 /\                (* intended window not elapsed *)
+  snd (detectUnresponsive (st 2000000000000000) p DDeadlineClient) = [] /\
+  snd (detectUnresponsive (st 6144000000000000) p DDeadlineClient) = [] /\
+  snd (detectUnresponsive (st 6144000000000001) p DDeadlineClient) = [ONewSC 1 1; OConnect 1].
+Proof. vm_compute. repeat split; reflexivity. Qed.
+
+(* saturation: when ms * 2^refreshCnt does not fit an int64 count of nanoseconds the
+   window is MaxInt64, whatever the refresh count (evaluated lazily: the conjunction
+   of the model stops at  refreshCnt < 63, no power of two is built) *)
+Example window_saturates :
+  let c := mkConfig 1 4 100 false 4294967295 1 false [] in
+  let s := set_cfg init_bal (Some c) in
+  let r k := mkSlot 0 0 0 0 0 false k in
+  unresponsiveWindow s (r 62) = MaxInt64 /\
+  unresponsiveWindow s (r 63) = MaxInt64 /\
+  unresponsiveWindow s (r 4294967295) = MaxInt64 /\
+  (* the largest count for which the 2^32 - 1 ms threshold does not saturate *)
+  unresponsiveWindow s (r 11) = window_ns c 11 /\ window_ns c 11 < MaxInt64 /\
+  unresponsiveWindow s (r 12) = MaxInt64 /\ MaxInt64 < window_ns c 12 /\
+  (* the monitor's side: from 2^64 on nothing is built either *)
+  window_elapsed c 4294967295 0 Int64Max = false /\ window_elapsed c 62 0 Int64Max = false.
+Proof. lazy. repeat split; reflexivity. Qed.
 
 (* --- once: a channel with a refresh in flight gets no second replacement --- *)
 Theorem one_replacement s i r :
@@ -315,7 +416,7 @@ Proof.
   pose proof (map_nth_error rview _ _ Hr) as Hv.
   pose proof (step_grow7 _ _ _ _ _ _ _ HI Es) as Hg.
   assert (K : grow7 s s1 -> exists v, nth_error (rviews s1) i = Some v /\ conn_of v = sl_conn r).
-  { intros [_ [l [El _]]]. exists (rview r). split; [|reflexivity]. rewrite El, nth_error_app1; [exact Hv|].
+  { intros [_ _ [l [El _]]]. exists (rview r). split; [|reflexivity]. rewrite El, nth_error_app1; [exact Hv|].
     eapply nth_error_Some_lt, Hv. }
   destruct o as [addrs a| |sc st|pi m hc rk dl cc|j oc rk|dt|j|f|g|k]; try (apply K, Hg).
   - cbn [step] in Es. destruct (UpdateSubConnState s sc st order) as [s1' o1] eqn:E1. inv Es.
